@@ -61,6 +61,10 @@ def run(ctx):
         fs = set(ctx.rng.sample(range(ncalls + 2), min(k, ncalls + 2)))
         n = writercheck.explore(ctx, wm, cfg, r_ops, fs, pre, bound=0, nrandom=ctx.pick(2, 6), limit=10, sink=col)
         ctx.evaluations += n
+  # beyond the listed property: the tag registration queue the writer feeds (TagQueue.tla; deviations = drift)
+  from . import tagsys
+  wm.configure(None, None, None)
+  tagsys.section(ctx, wm.writer)
   writercheck.conformance(ctx, wm, col, nworkloads=ctx.pick(4, 18), nrandom=ctx.pick(15, 60), limit=ctx.pick(60, 400))
   verdicts = writersys.judge(ctx, col.traces, 'C03 traces')
   writercheck.report(ctx, col, verdicts, 'C03')
